@@ -23,6 +23,7 @@ FIRST = {
     "C03-6": "no-failing-input-found", "C18-5": "no-failing-input-found",
     "C03-8": "missed", "C09-8": "missed", "C12-8": "missed", "C14-7": "missed", "C15-8": "missed",
     "C16-7": "missed by C16 (caught by C18)",
+    "C01-7": "no-failing-input-found", "C01-8": "missed", "C08-7": "missed", "C13-8": "missed", "C19-8": "missed",
 }
 ALSO = {"C03-1": "C08", "C13-2": "C11", "C01-6": "C08", "C16-7": "C18", "C03-8": "C01"}
 
